@@ -46,6 +46,9 @@ CLAIMED = {
  "C19": ("bit-range abstract interpretation of the packer/accessors, index agreement, structure of the numbering loops, dominance of rejections, overlap-check idioms by polynomial congruence, must-precede of table re-creation (static)",
          "Structural clauses decided: the row/column code packs four 16-bit fields disjointly and each accessor extracts the field of the parameter it is named after; processors get name and number from the identity tables at their own index and are stored at that index; Lancero error/feedback partners share one number, have distinct constant name prefixes, sit at consecutive indices, the number advances once per pair and one group is recorded per column; Abaco name and number come from one value firstchan+row; Lancero rejections precede every table store and both separation checks test every active card (no early loop exit); the Abaco overlap check is one of two recognised idioms covering every channel number, with the sorted-neighbour form compared as a polynomial (off-by-one detected); every appended identity table is re-made on every path before its first append. Not decided: that the separations make numbers collision-free for every geometry.",
          "names of the identity tables and of rcCode/row/col/rows/cols are name-keyed anchors; an overlap check in a third form is reported as undecided", "DESIGN.md §2 C19"),
+ "C12": ("carried-state rule on the sample loop (phis, uses of the loop index), value-shape congruence of output and offset stores, control pairing of state updates with their comparisons, dependence slice of the step limits (static)",
+         "Structural clauses only (the numeric identities over all 16-bit sequences are not decided): all state carried between samples lives in receiver fields and the sample's position inside the call is used only to address it (call-split independence by construction); each output is the masked, shifted input plus the offset field and every offset store is previous +/- one quantum or the home offset, itself a multiple of the quantum; both paths reduce the input identically; the step is current minus last value, last value refreshed every sample; the offset is lowered under step > upper limit and raised under step < lower limit; the limits are one bias +/- half a quantum and the bias depends only on the configured bias level and bit counts; the away-counter is zeroed at home, incremented away, and the offset returns home when the counter exceeds the interval; the disabled path only zeroes the counter.",
+         "PhaseUnwrapper field names are name-keyed anchors", "DESIGN.md §2 C12"),
  "C13": ("dominating-comparison facts, path rule, control dependence and flow-insensitive dependence slicing on SSA (static)",
          "Structural necessary conditions only (the numeric identities are not decided): projectors/basis installed only after the three shape equalities hold; record length never changed while projectors validated for another length stay installed; sample->float64 conversions under the matching arm of the signed flag; each analysis result depends on the record's own data/pre-trigger count (never on the per-channel length setting), model coefficients on the projector matrix, residual on the basis matrix; slices stored into a record are fresh per record.",
          "dependence is over-approximated through memory of locals, make() sites and struct-field storage; field names of DataRecord are name-keyed anchors", "DESIGN.md §2 C13"),
